@@ -12,8 +12,8 @@ package main
 //         The Lean specification `spec.c01e.decode` is evaluated on the same pairs (`holds`), and
 //   (iii) SPEC VALIDATION: `spec.c01e.decode` must agree with V8 on every literal seen (input or output), both modes
 //         — a disagreement is a finding of kind "diff" (the specification is wrong, not the code);
-//   (iv)  the `</script>` guard: the output literal contains `</script>` only if a backslash follows within 8 bytes
-//         of some `<` of the input (the guard works on raw text) — otherwise "fail".
+//   (iv)  the `</script` guard: the output literal contains `</script` (any letter case) only if a backslash follows
+//         within 8 bytes of some `<` of the input (the guard works on raw text) — otherwise "fail".
 //
 // Call sites: `x=<lit>` with Version 0 (allowTemplate) and Version 5 (no template); allowTemplate=false sites:
 // property names `({<lit>:1})`, `import<lit>`, `export*from<lit>`, import alias `import{<lit> as y}from"m"`.
@@ -395,8 +395,8 @@ func c01eEval(ctx *Ctx, st *h.Stage, cases []c01eCase) error {
 			st.Tag("input=invalid-js(outside the property)")
 		}
 		// (iv)
-		if bytes.Contains(c.out, []byte("</script>")) && !c01eEscNearLt(c.lit) {
-			ctx.R.Add(h.Finding{Stage: st.Name, Kind: "fail", What: "output literal contains </script> although no escape sequence follows a < of the input", Input: c.key(), Hex: hex.EncodeToString(c.lit), Config: cfg, Impl: h.Q(c.out)})
+		if bytes.Contains(bytes.ToLower(c.out), []byte("</script")) && !c01eEscNearLt(c.lit) {
+			ctx.R.Add(h.Finding{Stage: st.Name, Kind: "fail", What: "output literal contains </script (any letter case) although no escape sequence follows a < of the input", Input: c.key(), Hex: hex.EncodeToString(c.lit), Config: cfg, Impl: h.Q(c.out)})
 		}
 	}
 	return nil
@@ -476,7 +476,7 @@ func c01eCasesFor(dst []c01eCase, body []byte, allSites bool) []c01eCase {
 	return dst
 }
 
-var c01eRawPool = []string{"a", "Z", "0", "1", "7", "8", "9", " ", "{", "}", "$", "<", "/", ">", "!", "-", "'", "\"", "`", "\xc3\xa9", "\xe2\x82\xac", "\xf0\x9f\x98\x80", "\xe2\x80\xa8", "\xe2\x80\xa9", "\xef\xbb\xbf", "script", "</script>", "<!--", "${", "\t", "\x7f"}
+var c01eRawPool = []string{"a", "Z", "0", "1", "7", "8", "9", " ", "{", "}", "$", "<", "/", ">", "!", "-", "'", "\"", "`", "\xc3\xa9", "\xe2\x82\xac", "\xf0\x9f\x98\x80", "\xe2\x80\xa8", "\xe2\x80\xa9", "\xef\xbb\xbf", "script", "</script>", "</SCRIPT", "</scRipt ", "<\\/Script", "<!--", "${", "\t", "\x7f"}
 
 func c01eGenBody(r *h.RNG) []byte {
 	var b []byte
@@ -522,6 +522,8 @@ var c01eRegression = c01eU([]string{
 	// from js_test.go / util_test.go (pinned spellings)
 	`"string\0%uFFFFstring"`, `"string\000\12\015\042\47\411string"`, `' %u{0}%u{0}%u{0\0\ '`, `"\x00\x31 \0%u0000"`, "`\\n\\'\\$\\$\\{`", `"\42''"`, `'\47""'`, `'\140""\'\''`,
 	`'</script>'`, `'<\/script>'`, `'\x3c/script>'`, `'</scr\x69pt>'`,
+	// 42d690f: every `</script`, any letter case
+	`'</script'`, `'</SCRIPT x'`, `'<\/ScRiPt'`, `'</scrip'`, `'a</scriptb</Script/>'`, "`</sCRIPT\n`", `'\</script'`, `'<\/script'`, `'<\/scrip'`,
 })
 
 func c01eEnumChars(dst *[]c01eCase, body []byte, n int, allSites bool) {
